@@ -214,6 +214,10 @@ def run_server(kconfig, sdkconfig, sdkconfig_rename, default_version=MAX_PROTOCO
                 # V1 response, invisible items have value None
                 for k in (k for (k, v) in visible_diff.items() if not v):
                     values_diff[k] = None
+                # ...and an item that just became visible has to be sent even if its value did not change:
+                # while it was invisible the client was given False (initial message) or None instead
+                for k in (k for (k, v) in visible_diff.items() if v and k in after):
+                    values_diff[k] = after[k]
                 response = {"version": 1, "values": values_diff, "ranges": ranges_diff}
             else:
                 # V2+ response, separate visibility values
